@@ -68,6 +68,12 @@ func (svc *service) receiver() {
 			if err != nil {
 				if !isEOF(err) {
 					log.Debugf("(%s) Reading from connection failed: %v", svc.cid(), err)
+
+					// The connection is dead (keep-alive expired, reset). Closing it
+					// releases the sender and, through the outgoing buffer, every
+					// writer blocked on this connection - also when the processor,
+					// which normally starts the teardown, waits behind one of them.
+					conn.Close()
 				}
 				return
 			}
